@@ -379,6 +379,25 @@ def _check_frame(stg, c, fr, R, rng):
         R.check(err <= bound, 'twin-injected-data', err=err, bound=bound)
         R.check(float(np.max(sig_a)) > 0.5, 'twin-signal-present')
         R.maximum('twin_err_over_bound', err / bound)
+        # ... and so do the frames DERIVED from the two: slice, de-drifted frame, integrated spectrum and time series
+        tolx = 8 * common.ulp(fr.fmax)
+        l_ = int(rng.integers(0, max(1, n - 1)))
+        r_ = int(rng.integers(l_ + 1, n + 1))
+        rate_ = float(rng.normal()) * 0.3 * fr.df / (max(m, 2) * fr.dt)
+        prods = [('slice', lambda x: x.get_slice(l_, r_)), ('spectrum', lambda x: stg.spectrum(x)), ('timeseries', lambda x: stg.timeseries(x)),
+                 ('integrate-f-as-frame', lambda x: stg.integrate(x, axis='f', as_frame=True))]
+        if n >= 8 and m >= 2:
+            prods.append(('dedrift', lambda x: stg.dedrift(x, rate_)))
+        for nm_, fn_ in prods:
+            with common.quiet():
+                pa, pb = fn_(fr), fn_(tw)
+            fa, fb = np.asarray(pa.fs, dtype=float), np.asarray(pb.fs, dtype=float)
+            okx = fa.shape == fb.shape and (fa.size == 0 or float(np.max(np.abs(fa - fb))) <= tolx)
+            R.check(bool(okx) and abs(float(pa.fmid) - float(pb.fmid)) <= tolx and abs(float(pa.df) - float(pb.df)) <= 4 * common.ulp(pa.df),
+                    'twin-derived-frame-axes:' + nm_, fa=fa[:2].tolist(), fb=fb[:2].tolist(), fmid=[float(pa.fmid), float(pb.fmid)])
+            R.check(np.array_equal(np.asarray(pa.ts), np.asarray(pb.ts)), 'twin-derived-frame-time-axis:' + nm_)
+            prob_ = axes_problem(pa) if nm_ in ('slice', 'dedrift') else None
+            R.check(prob_ is None, 'derived-frame-axes:' + nm_ + ':' + (prob_[0] if prob_ else 'ok'))
         fr.zero_data()
 
 MANIFEST = {
